@@ -2,12 +2,12 @@
 """Print the prompt given to an independent sub-agent that seeds a property-breaking change (nothing from /verif is revealed)."""
 import json, sys
 pid = sys.argv[1]
-wt = '/tmp/wt-' + pid
+wt = '/tmp/' + (sys.argv[2] if len(sys.argv) > 2 else 'wt') + '-' + pid
 for l in open('/verif/properties.jsonl'):
     p = json.loads(l)
     if p['id'] == pid:
         break
-print(f"""You are working in a scratch git worktree of the open-source project opendnssec/SoftHSMv2 (a software PKCS#11 token) at {wt} (already created, at the project's pinned commit). Work ONLY inside {wt} (you may also create files under {wt}/_seed/). Never touch /repo or /verif, and do not read anything under /verif. There is no network.
+print(f"""You are working in a scratch git worktree of the open-source project opendnssec/SoftHSMv2 (a software PKCS#11 token) at {wt} (already created). Work ONLY inside {wt} (you may also create files under {wt}/_seed/). Never touch /repo or /verif, and do not read anything under /verif. There is no network.
 
 GOAL: produce TWO different, realistic code changes to SoftHSMv2's library sources (under {wt}/src/lib) each of which BREAKS the semantic property below, while the code still compiles and the project's ENTIRE existing test-suite still passes. For each change also write a demonstration (a small C or C++ program driving the PKCS#11 API of the built library via dlopen/C_GetFunctionList, or a small unit-test-like program linked against the built objects) that FAILS (non-zero exit, printing what went wrong) with the change applied and PASSES (exit 0) on the unmodified tree.
 
@@ -25,9 +25,9 @@ NOTE: in this environment the suite takes only ~15 s, and on the UNMODIFIED tree
 The built library is {wt}/_build/src/lib/libsofthsm2.so. A demo program needs a config file: create a temp dir, write a softhsm2.conf with "directories.tokendir = <tempdir>/tokens", "objectstore.backend = file", "log.level = ERROR", "slots.removable = false" and export SOFTHSM2_CONF=<that file> before the library is loaded (C_Initialize). PKCS#11 headers are in {wt}/src/lib/pkcs11 (include cryptoki.h or pkcs11.h; define the CK_* platform macros as src/lib/pkcs11/cryptoki.h does). Build the baseline first, verify the demo passes on the baseline, then apply change 1, rebuild, run demo (must fail) and the full ctest (must pass); then revert (git checkout -- src), and repeat for change 2.
 
 DELIVERABLES, for N in 1,2, under {wt}/_seed/N/ :
-  patch.diff   — output of `git -C {wt} diff -- src` with only that change applied (must apply cleanly to the pinned commit with `git apply`)
-  demo.c or demo.cpp, and run.sh — run.sh takes the path of the built library directory (e.g. {wt}/_build) as $1, compiles the demo into a temp dir, sets up a fresh token directory + SOFTHSM2_CONF, runs the demo and exits with the demo's status (0 = property held, non-zero = property broken)
+  patch.diff   — output of `git -C {wt} diff -- src` with only that change applied (must apply cleanly to the worktree's commit with `git apply`)
+  demo.c or demo.cpp, and run.sh — run.sh takes the path of the built library directory (e.g. {wt}/_build) as $1, compiles the demo into a temp dir, sets up a fresh token directory + SOFTHSM2_CONF, runs the demo and exits with the demo's status (0 = property held, non-zero = property broken); run.sh must take the source tree (for include paths) from the environment variable SOFTHSM_SRC, defaulting to {wt}, and must not depend on its own location
   meta.json    — {{"property": "{p['id']}", "summary": "<one sentence: what the change does>", "needs_to_manifest": "<what specific sequence/input/state exposes it>", "files_changed": [...], "ctest_result_with_change": "<e.g. 100% tests passed, N tests>", "demo_on_baseline": "exit 0", "demo_with_change": "exit <n>: <message>"}}
-Leave the worktree's src/ reverted to the pinned state at the end (git checkout -- src) but keep _seed/. You may delete {wt}/_build at the very end to save disk.
+Leave the worktree's src/ reverted to the committed state at the end (git checkout -- src) but keep _seed/. You may delete {wt}/_build at the very end to save disk.
 
 Your final answer: for each change, the summary, what it needs to manifest, and the exact results you observed (ctest pass count with the change; demo exit codes with and without). Be honest: if a change did not survive the test-suite or the demo could not be made to discriminate, say so and do not deliver it.""")
